@@ -37,6 +37,16 @@ class Base200(MetadataSchema):
     label: NonEmptyStr
 
 
+class Alpha(Base110):
+    """verif.alpha: another child of verif.base 1.1.0 whose name sorts BEFORE its parent's."""
+
+    class Plugin:
+        name = "verif.alpha"
+        version = (1, 0, 0)
+
+    rank: Optional[Int]
+
+
 class Mid(Base110):
     """verif.mid: child of verif.base 1.1.0."""
 
